@@ -253,8 +253,8 @@ static std::string msg_sized(size_t total, char tag)
     return m;
 }
 
-enum WKind { W_SMALL = 0, W_MEDIUM, W_BIG, W_OVER, W_ARRAY, W_RAW, W_RAW_OVER, W_KINDS };
-static const char *WKN[W_KINDS] = {"write12", "write20", "writeMaxMsg", "write>MaxMsg", "writeArray12", "raw_write12", "raw_write>MaxMsg"};
+enum WKind { W_SMALL = 0, W_MEDIUM, W_BIG, W_OVER, W_ARRAY, W_RAW, W_RAW_OVER, W_BLOB, W_KINDS };
+static const char *WKN[W_KINDS] = {"write12", "write20", "writeMaxMsg", "write>MaxMsg", "writeArray12", "raw_write12", "raw_write>MaxMsg", "writeArray16blob"};
 
 // performs writer op `kind` with sequence tag `seq` on the link; returns the message bytes the op tries to enqueue
 struct WPlan { std::string bytes; };
@@ -269,6 +269,7 @@ static WPlan plan_write(int kind, int seq, size_t maxmsg)
     case W_ARRAY: p.bytes = msg_int("/w", 2000 + seq); break;
     case W_RAW: p.bytes = msg_int("/r", 3000 + seq); break;
     case W_RAW_OVER: p.bytes = msg_sized(maxmsg + 4, (char)('A' + seq)); break;
+    case W_BLOB: { unsigned char bb[2] = {(unsigned char)(0xb0 + seq), 0x0b}; rtosc_arg_t a; a.b.len = 2; a.b.data = bb; p.bytes = mk_msg("/b", "b", &a); break; }   // the size word sits 8 bytes into the message
     }
     return p;
 }
@@ -286,6 +287,7 @@ static void do_write(rtosc::ThreadLink &tl, int kind, int seq, size_t maxmsg, co
         (void)total; tl.write("/x", "s", s); break; }
     case W_ARRAY: { rtosc_arg_t a; a.i = 2000 + seq; tl.writeArray("/w", "i", &a); break; }
     case W_RAW: case W_RAW_OVER: tl.raw_write(raw_bytes); break;
+    case W_BLOB: { unsigned char bb[2] = {(unsigned char)(0xb0 + seq), 0x0b}; rtosc_arg_t a; a.b.len = 2; a.b.data = bb; tl.writeArray("/b", "b", &a); break; }
     }
 }
 
@@ -311,17 +313,22 @@ static Ctx g_ctx;
 
 static void rotate_to(Ctx &c, size_t off)
 {
-    // sequentially write and read 8/12-byte messages until the read index stands at `off`
+    // sequentially write and read 8- and 12-byte messages until the read index stands at `off`; the sequence of steps is a
+    // shortest path in the graph of offsets (ring sizes need not be multiples of 4)
     std::string m8 = mk_msg("/x", "", nullptr), m12 = msg_int("/y", 7);
-    int guard_n = 0;
-    while((size_t)*c.v.read != off) {
-        size_t d = (off + c.v.size - (size_t)*c.v.read) % c.v.size;
-        const std::string &m = (d == 8 || (d != 12 && d % 12 != 0 && d % 8 == 0 && d < 24)) ? m8 : m12;
-        c.tl->raw_write(m.c_str());
+    const size_t size = c.v.size;
+    std::vector<int> prev(size, -1), step(size, 0);
+    size_t from = (size_t)*c.v.read;
+    std::vector<size_t> q = {from}; prev[from] = (int)from;
+    for(size_t h = 0; h < q.size(); ++h) for(int st : {8, 12}) { size_t n = (q[h] + st) % size; if(prev[n] < 0) { prev[n] = (int)q[h]; step[n] = st; q.push_back(n); } }
+    if(prev[off] < 0) { fprintf(stderr, "harness: offset %zu not reachable in a ring of %zu bytes\n", off, size); exit(3); }
+    std::vector<int> plan; for(size_t p = off; p != from; p = (size_t)prev[p]) plan.push_back(step[p]);
+    for(size_t k = plan.size(); k-- > 0;) {
+        c.tl->raw_write(plan[k] == 8 ? m8.c_str() : m12.c_str());
         if(!c.tl->hasNext()) { fprintf(stderr, "harness: rotation failed\n"); exit(3); }
         c.tl->read();
-        if(++guard_n > 1000) { fprintf(stderr, "harness: rotation does not terminate\n"); exit(3); }
     }
+    if((size_t)*c.v.read != off) { fprintf(stderr, "harness: rotation ended at %ld instead of %zu\n", *c.v.read, off); exit(3); }
 }
 
 static Exec run_instance(const Instance &in, const std::vector<uint8_t> &prefix)
@@ -630,6 +637,11 @@ int main(int argc, char **argv)
     for(int len = 1; len <= maxw; ++len) { std::vector<int> p(len, 0); while(true) { wprogs.push_back(p); int k = len - 1; while(k >= 0 && ++p[k] == W_KINDS) p[k--] = 0; if(k < 0) break; } }
     for(int len = 1; len <= maxr; ++len) { std::vector<int> p(len, 0); while(true) { rprogs.push_back(p); int k = len - 1; while(k >= 0 && ++p[k] == 2) p[k--] = 0; if(k < 0) break; } }
     std::vector<Instance> insts;
+    // a ring whose size (54) is not a multiple of 4: start offsets of both parities near the wrap-around, programs over the kinds
+    // that fit an 18-byte MaxMsg (12-byte messages, the 16-byte blob message whose size word can straddle the ring end)
+    if(!EXT) for(size_t off = 30; off < 54; off += 2) for(int pre = 0; pre <= 1; ++pre)
+        for(auto &wp : wprogs) { bool ok = true; for(int k : wp) if(!(k == W_SMALL || k == W_BLOB || k == W_RAW || k == W_OVER)) ok = false; if(!ok) continue;
+            for(auto &rp : rprogs) { Instance in; in.maxmsg = 18; in.nmsgs = 3; in.offset = off; in.prefill = pre; in.wprog = wp; in.rprog = rp; insts.push_back(in); } }
     for(auto &rg : rings) for(size_t off = 0; off < rg.maxmsg * rg.nmsgs; off += 4) for(int pre = 0; pre <= 2; ++pre) {
         // quick: every start offset for the smallest ring, offsets near the wrap-around for the others
         // every start offset for the smallest ring, offsets at and near the wrap-around for the others
@@ -641,8 +653,8 @@ int main(int argc, char **argv)
     }
     const std::string PA = EXT ? "partA_ext_" : "partA_";
     vp::bound(PA + "instances", (long long)insts.size());
-    vp::bound(PA + "programs", std::string(EXT ? "writer: all programs of exactly 3 ops over {write12, writeMaxMsg, write>MaxMsg, raw_write12}" : "writer: 1.." + std::to_string(maxw) + " ops over {write12, write20, writeMaxMsg, write>MaxMsg, writeArray12, raw_write12, raw_write>MaxMsg}") + "; reader: 1.." + std::to_string(maxr) + " rounds over {if(hasNext)read, if(hasNextLookahead)read_lookahead}");
-    vp::bound(PA + "rings", EXT ? "16x2 24x2" : "16x2 16x3");
+    vp::bound(PA + "programs", std::string(EXT ? "writer: all programs of exactly 3 ops over {write12, writeMaxMsg, write>MaxMsg, raw_write12}" : "writer: 1.." + std::to_string(maxw) + " ops over {write12, write20, writeMaxMsg, write>MaxMsg, writeArray12, raw_write12, raw_write>MaxMsg, writeArray16blob}") + "; reader: 1.." + std::to_string(maxr) + " rounds over {if(hasNext)read, if(hasNextLookahead)read_lookahead}");
+    vp::bound(PA + "rings", EXT ? "16x2 24x2" : "16x2 16x3 18x3(54 bytes, not a multiple of 4)");
     vp::bound(PA + "start_states", "ring pre-rotated to start offsets (multiples of 4) and pre-filled with 0..2 messages");
     int completed_bound = -1;
     std::vector<uint64_t> per_k(8, 0);
